@@ -26,8 +26,8 @@ CASES = {'quick': 480, 'thorough': 7000}
 MIN_NONTRIVIAL = {'quick': 250, 'thorough': 3500}
 ANCHORS = ['loki/frontend/source.py', 'loki/frontend/fparser.py', 'loki/frontend/regex.py']
 REQUIRED_REACH = ['get_source', 'source_from_current_line', 'source_from_sanitized_span']
-REQUIRED_COUNTERS = {'fp_nodes_checked': 10000, 'regex_nodes_checked': 3000, 'anchor_checks': 8000,
-                     'parent_child_checks': 8000, 'string_checks': 10000}
+REQUIRED_COUNTERS = {'fp_nodes_checked': 1500, 'regex_nodes_checked': 600, 'anchor_checks': 1500,
+                     'parent_child_checks': 1500, 'string_checks': 1500}
 ASSUMPTIONS = ['white space, "&" continuation markers and letter case are insignificant when comparing recorded strings with the file',
                'a recorded string may omit comments that sit between continuation lines']
 BUDGET_S = {'quick': 300, 'thorough': 2400}
